@@ -35,7 +35,7 @@ REQUIRED = {
         "elev_order2": 10, "elev_order3": 10, "elev_order4": 10, "elev_order5": 10, "elev_bubble": 20, "elev_rotated_rows": 10, "elev_hole": 3,
         "elev_nodesets_from_sidesets": 5, "elev_copy_nodesets": 5,
         "merge_equal_block_names": 5, "merge_equal_nodeset_names": 5, "merge_equal_sideset_names": 5, "merge_disjoint_names": 5,
-        "merge_members_compared": 200, "merge_chain3": 3,
+        "merge_members_compared": 200, "merge_chain3": 3, "merge_then_elevate": 5,
         "exodus_tri3": 5, "exodus_tri6": 5, "exodus_unnamed_sets": 3, "exodus_named_sets": 3, "exodus_no_elem_map": 3, "exodus_elem_map": 3,
         "exodus_multi_block": 5, "exodus_tri6_midside_checked": 100, "read_members_compared": 200, "json_files": 5,
         "structured_meshes": 10,
@@ -45,8 +45,8 @@ REQUIRED = {
 WATCHDOG_S = {"quick": 1800, "thorough": 4 * 3600}
 
 N_CASES = {
-    "quick": {"structured": 30, "elevate": 32, "edges": 32, "combine": 64, "exodus": 64, "json": 24},
-    "thorough": {"structured": 400, "elevate": 480, "edges": 480, "combine": 1600, "exodus": 1600, "json": 400},
+    "quick": {"structured": 60, "elevate": 64, "edges": 64, "combine": 128, "exodus": 128, "json": 48},
+    "thorough": {"structured": 2000, "elevate": 3200, "edges": 2400, "combine": 8000, "exodus": 8000, "json": 2000},
 }
 COST = {"structured": 2.0, "elevate": 6.0, "edges": 0.5, "combine": 0.5, "exodus": 0.5, "json": 0.3}
 
@@ -55,7 +55,7 @@ def build_cases(tier, seed):
     cases = []
     for cls, n in N_CASES[tier].items():
         for i in range(n):
-            cases.append({"cls": cls, "i": i, "group": "g%d" % (len(cases) % 32), "cost": COST[cls],
+            cases.append({"cls": cls, "i": i, "tier": tier, "group": "g%d" % (len(cases) % 32), "cost": COST[cls],
                           "seed": derive_seed(seed, PROPERTY, cls, i)})
     return cases
 
@@ -76,9 +76,9 @@ def _jnp():
     return jnp
 
 
-def _base_spec(rng, i, small=True):
+def _base_spec(rng, i, small=True, tier="quick"):
     """Stratified random description of a simplex mesh (by case index i)."""
-    lo, hi = (3, 6) if small else (4, 13)
+    lo, hi = ((3, 6) if tier == "quick" else (3, 8)) if small else (4, 13)
     spec = {"nx": int(rng.integers(lo, hi)), "ny": int(rng.integers(lo, hi)),
             "hole": (i % 4 == 1), "graded": (i % 5 == 2), "rotate_rows": (i % 8 != 7),
             "affine_kind": [None, "rot", "aniso", "shear"][(i // 2) % 4], "scale_exp": int(rng.integers(-6, 7)) if i % 3 == 0 else 0}
@@ -213,7 +213,7 @@ def run_elevate(case, res, rng, tier):
     from vlib.gen import meshes, c13_meshfiles as G
     from vlib.oracles import c13_validate as V
     i = case["i"]
-    spec = _base_spec(rng, i, small=True)
+    spec = _base_spec(rng, i, small=True, tier=case.get("tier", "quick"))
     pts, tri = _simplex_data(rng, spec)
     nE = len(tri)
     mode = i % 3          # 0: plain, 1: node sets copied, 2: node sets from side sets
@@ -405,6 +405,15 @@ def run_combine(case, res, rng):
         if k == 2:
             res.count("merge_chain3")
     res.count("merges")
+    # a merged mesh is itself a simplex mesh: elevating it (two or three disjoint bodies) must again give a valid mesh
+    if i % 4 == 0:
+        order = 2 + (i // 4) % 2
+        binfo = V.validate_mesh(Res({}), cur_mesh, "merged (pre-elevation)", expect_degree=1, expect_bubble=False)
+        new = _call(res, "elevate", Mesh.create_higher_order_mesh_from_simplex_mesh, cur_mesh, order, copyNodeSets=(cur_mesh.nodeSets is not None))
+        if new is not None and binfo is not None:
+            _check_elevated(res, V, binfo, cur_mesh, new, order, False, "merged[%s] -> order %d" % (names_mode, order),
+                            cur_mesh.nodeSets is not None, False)
+            res.count("merge_then_elevate")
 
 
 def _name_list(rng, mode, prefix, n):
